@@ -935,13 +935,60 @@ func (c *compiler) scanStatements(list []ast.Statement) (lastProducingIdx int, b
 	return
 }
 
+// containsBranch reports whether st contains a break or continue statement (not looking into
+// nested functions, which are expressions).
+func containsBranch(st ast.Statement) bool {
+	switch st := st.(type) {
+	case *ast.BranchStatement:
+		return true
+	case *ast.BlockStatement:
+		for _, s := range st.List {
+			if containsBranch(s) {
+				return true
+			}
+		}
+	case *ast.IfStatement:
+		return containsBranch(st.Consequent) || (st.Alternate != nil && containsBranch(st.Alternate))
+	case *ast.LabelledStatement:
+		return containsBranch(st.Statement)
+	case *ast.WithStatement:
+		return containsBranch(st.Body)
+	case *ast.WhileStatement:
+		return containsBranch(st.Body)
+	case *ast.DoWhileStatement:
+		return containsBranch(st.Body)
+	case *ast.ForStatement:
+		return containsBranch(st.Body)
+	case *ast.ForInStatement:
+		return containsBranch(st.Body)
+	case *ast.ForOfStatement:
+		return containsBranch(st.Body)
+	case *ast.TryStatement:
+		if containsBranch(st.Body) || (st.Catch != nil && containsBranch(st.Catch.Body)) || (st.Finally != nil && containsBranch(st.Finally)) {
+			return true
+		}
+	case *ast.SwitchStatement:
+		for _, cs := range st.Body {
+			for _, s := range cs.Consequent {
+				if containsBranch(s) {
+					return true
+				}
+			}
+		}
+	}
+	return false
+}
+
 func (c *compiler) compileStatementsNeedResult(list []ast.Statement, lastProducingIdx int) {
 	if lastProducingIdx >= 0 {
 		for _, st := range list[:lastProducingIdx] {
 			if _, ok := st.(*ast.FunctionDeclaration); ok {
 				continue
 			}
-			c.compileStatement(st, false)
+			// a statement that may leave the list through break/continue decides the completion value
+			// of the jump target (e.g. `if (c) break;` completes with undefined): it must track its
+			// result although it is not the last value-producing statement of the list
+			c.compileStatement(st, containsBranch(st))
 		}
 		c.compileStatement(list[lastProducingIdx], true)
 	}
